@@ -490,9 +490,13 @@ class SimpleCorrelator(AbstractCorrelator):
         now: float = time.monotonic()
         sequence_key: str
         for sequence_key in tuple(self._store.keys()):
+            item: Optional[Tuple[float, SmppMessage]] = self._store.get(sequence_key)
+            if item is None:
+                # Removed by another task (a response, or another sweep) while a hook was awaited
+                continue
             stored_at: float
             message: SmppMessage
-            stored_at, message = self._store[sequence_key]
+            stored_at, message = item
             if now - stored_at > self.max_ttl_response:
                 del self._store[sequence_key]
                 await self.expired(message)
